@@ -13,6 +13,9 @@
 //@   loop 1: invariant(str[strLen] == this->maxchar && (gk < strLen ==> str[gk] == __CPROVER_loop_entry(str[gk])))
 //@ fn RePair::expandRule as=RePair__expandRule
 //@ fn RePair::expandRuleAndCompareString as=RePair__expandRuleAndCompareString_real
+//@ fn RePair::extractStringAndCompareDAC
+//@ fn RePair::expandRuleAndComparePrefixDAC
+//@ fn RePair::extractPrefixAndCompareDAC
 //@ fn LogSequence::get_field tu=utils/LogSequence.cpp
 //@ fn LogSequence::set_field tu=utils/LogSequence.cpp
 //@ fn LogSequence::maxVal tu=utils/LogSequence.cpp
@@ -31,6 +34,8 @@
 //@ ob rp_expandRule3 entry=h_expand tier=B props=C20,C07 kind=statement unwind=9 timeout=3600 mem=30 defs=-DREAL_GETFIELD,-DNRULES=3 only=thorough
 //@ ob rp_expandCompare entry=h_expcmp tier=B props=C20,C02,C01,C03 kind=statement unwind=7 foreach=NRULES:1-2 timeout=900 defs=-DREAL_GETFIELD,-DREAL_COMPARE
 //@ ob rp_cmpRP_ref entry=h_cmpRP_ref tier=B props=C02,C01,C03 kind=statement unwind=7 unwindset=RePair__expandRuleAndCompareString_real:2,RePair__expandRuleAndCompareString:2 timeout=600 mem=30 defs=-DREAL_GETFIELD,-DREAL_COMPARE
+//@ ob rp_cmpDAC_ref entry=h_cmpDAC_ref tier=B props=C03,C02,C01,C07 kind=statement unwind=7 unwindset=RePair__expandRuleAndCompareString_real:2,RePair__expandRuleAndCompareString:2 timeout=900 mem=30 defs=-DREAL_GETFIELD,-DREAL_COMPARE
+//@ ob rp_pfxDAC_ref entry=h_pfxDAC_ref tier=B props=C04,C03,C07 kind=statement unwind=7 unwindset=RePair__expandRuleAndComparePrefixDAC:2 timeout=900 mem=30 defs=-DREAL_GETFIELD,-DREAL_COMPARE
 //@ ob rp_bits entry=h_bits tier=C props=C20 kind=statement unwind=34
 //@ ob rp_saveload entry=h_rp_sl tier=C props=C20,C06,C08 kind=statement unwind=20 foreach=ENC:0-1
 size_t gk;
@@ -39,6 +44,8 @@ size_t gk;
 /* TRUSTED: DAC_VLS save/load are checked in unit dac; here they transfer the object */
 void DAC_VLS__save(DAC_VLS *this, struct vstream *fp);
 DAC_VLS *DAC_VLS__load(struct vstream *fp);
+/* the per-string symbol lists of the DAC kinds: in the two reference-comparison harnesses below the list of the one stored string is an array (DAC_VLS itself: unit dac) */
+uint DAC_VLS__access_next(DAC_VLS *this, uint l, uint *id);
 /* TRUSTED: interface contracts used by the pattern-preservation obligation: the packed sequence returns some symbol; the recursive comparison moves *pos and writes nothing else (its own frame is the same shape; it never writes through str) */
 #ifndef REAL_COMPARE
 int RePair__expandRuleAndCompareString(RePair *this, uint rule, uchar *str, uint *pos)
@@ -167,6 +174,58 @@ void h_cmpRP_ref(void) {
   __CPROVER_assert(firstdiff == 0 || (cmp > 0) == (firstdiff > 0), "C03: a difference inside both strings is reported with the sign of the unsigned byte difference");
   REACH_POINT();
 }
+/* C03/C02/C01 (bounded): the comparison used by RPDAC's binary search and HASHRPDAC's probes.  The stored string is a
+ * list of 1..3 symbols (terminals 1..MC, one rule of two terminals); the pattern has up to 5 arbitrary non-zero bytes and
+ * sits at the very end of its buffer, so that a read past its terminator is a bounds violation.  Result: sign of the
+ * unsigned-byte lexicographic comparison stored vs pattern (a proper prefix is smaller), 0 exactly for equality. */
+static uint g_list[3]; static uint g_listlen;
+uint DAC_VLS__access_next(DAC_VLS *this, uint l, uint *id) { __CPROVER_assert(l < g_listlen, "symbol list read inside the stored string"); if (l + 1 == g_listlen) *id = (uint)-1; return g_list[l]; }
+static uint dac_ref_setup(RePair *rp, LogSequence *g, size_t *gw, uchar *stored) {
+  g->numbits = NB; g->numentries = 2; g->arraysize = 1; g->maxval = (1 << NB) - 1; g->array = gw;
+  rp->G = g; rp->terminals = MC + 1; rp->rules = 1; rp->maxchar = MC;
+  uint in_r0, in_r1; __CPROVER_assume(in_r0 >= 1 && in_r0 <= MC && in_r1 >= 1 && in_r1 <= MC);
+  LogSequence__set_field(g, gw, NB, 0, in_r0); LogSequence__set_field(g, gw, NB, 1, in_r1);
+  uint in_n; __CPROVER_assume(in_n >= 1 && in_n <= 3); g_listlen = in_n; uint slen = 0;
+  for (uint k = 0; k < 3; k++) if (k < in_n) {
+    uint in_c; __CPROVER_assume(in_c >= 1 && in_c <= MC + 1); g_list[k] = in_c;
+    if (in_c == MC + 1) { stored[slen++] = (uchar)in_r0; stored[slen++] = (uchar)in_r1; } else stored[slen++] = (uchar)in_c;
+  }
+  return slen;
+}
+void h_cmpDAC_ref(void) {
+  static size_t gw[1]; LogSequence g; RePair rp; uchar stored[6];
+  uint slen = dac_ref_setup(&rp, &g, gw, stored);
+  uchar buf[PATMAX + 1]; uint in_len; __CPROVER_assume(in_len <= PATMAX); uchar *in_str = buf + (PATMAX - in_len);
+  for (uint k = 0; k < PATMAX; k++) if (k < in_len) __CPROVER_assume(in_str[k] != 0);
+  in_str[in_len] = 0;
+  int cmp = RePair__extractStringAndCompareDAC(&rp, 1, in_str, in_len);
+  int expect = 0;
+  for (uint k = 0; k <= PATMAX; k++) if (expect == 0) {
+    int a = k < slen ? stored[k] : 0, b = k < in_len ? in_str[k] : 0;
+    if (a != b) expect = a - b; else if (a == 0) break;
+  }
+  __CPROVER_assert((cmp == 0) == (expect == 0), "C02/C01: compares equal exactly when the stored string is the pattern");
+  __CPROVER_assert(expect == 0 || (cmp > 0) == (expect > 0), "C03: otherwise the sign of the unsigned-byte lexicographic comparison (a proper prefix is smaller)");
+  REACH_POINT();
+}
+/* C04 (bounded): the prefix comparison behind RPDAC::locatePrefix: 0 exactly when the stored string starts with the
+ * (non-empty) prefix, otherwise the sign of the lexicographic comparison */
+void h_pfxDAC_ref(void) {
+  static size_t gw[1]; LogSequence g; RePair rp; uchar stored[6];
+  uint slen = dac_ref_setup(&rp, &g, gw, stored);
+  uchar buf[PATMAX + 1]; uint in_len; __CPROVER_assume(in_len >= 1 && in_len <= PATMAX); uchar *in_str = buf + (PATMAX - in_len);
+  for (uint k = 0; k < PATMAX; k++) if (k < in_len) __CPROVER_assume(in_str[k] != 0);
+  in_str[in_len] = 0;
+  int cmp = RePair__extractPrefixAndCompareDAC(&rp, 1, in_str, in_len);
+  int expect = 0;
+  for (uint k = 0; k < PATMAX; k++) if (expect == 0 && k < in_len) {
+    int a = k < slen ? stored[k] : 0, b = in_str[k];
+    if (a != b) expect = a - b;
+  }
+  __CPROVER_assert((cmp == 0) == (expect == 0), "C04: 0 exactly when the stored string starts with the prefix");
+  __CPROVER_assert(expect == 0 || (cmp > 0) == (expect > 0), "C04/C03: otherwise the sign of the unsigned-byte comparison at the first difference (a stored string that ends first is smaller)");
+  REACH_POINT();
+}
 /* C20: the number of bits reported for a symbol suffices for every terminal and rule identifier (32-bit sums) */
 void h_bits(void) {
   LogSequence ls; uint in_total, in_x;
@@ -186,7 +245,7 @@ DAC_VLS *DAC_VLS__load(struct vstream *fp) { return g_saved_dac; }
 void h_rp_sl(void) {
   static size_t gw[2], cw[1]; LogSequence g, cls; static struct { char c; } dacobj;
   g.numbits = 9; g.numentries = 6; g.arraysize = 1; g.maxval = 511; g.array = gw; size_t in_g0; gw[0] = in_g0; gw[1] = 0;
-  cls.numbits = 9; cls.numentries = 4; cls.arraysize = 1; cls.maxval = 511; cls.array = cw; size_t in_c0; cw[0] = in_c0;
+  cls.numbits = 9; cls.numentries = 5; cls.arraysize = 1; cls.maxval = 511; cls.array = cw; size_t in_c0; cw[0] = in_c0;
   RePair rp; uchar in_maxchar; uint64_t in_terminals, in_rules;
   rp.G = &g; rp.Cls = &cls; rp.Cdac = (DAC_VLS *)&dacobj; rp.maxchar = in_maxchar; rp.terminals = in_terminals; rp.rules = in_rules;
   uint enc = ENC ? HASHRPDAC : HASHRPF;
